@@ -29,6 +29,9 @@ pub enum Ev {
   /// discovery announces the (matched, unchanged) writer again, as it does on every SPDP / SEDP refresh:
   /// nothing the reader knows about the writer's stream may change
   Reannounce(u8),
+  /// the participant's periodic cache-clean timer (DDSCache::garbage_collect): within the reader's
+  /// resource limits it may not remove anything that has not been handed over
+  Clean,
 }
 
 #[derive(Debug, Clone, Copy, PartialEq, Serialize)]
@@ -287,6 +290,7 @@ fn ev_kind(e: &Ev) -> &'static str {
     Ev::Gap(..) => "GAP",
     Ev::Take(_) => "TAKE",
     Ev::Reannounce(_) => "REANNOUNCE",
+    Ev::Clean => "CLEAN",
   }
 }
 
@@ -345,6 +349,7 @@ impl Model for M {
           sim.inject(&b);
         }
         Ev::Reannounce(w) => sim.reannounce(*w),
+        Ev::Clean => sim.cache_clean(),
         Ev::Gap(w, start, base, set) => {
           let b = sim.gap_bytes(*w, *start, *base, set);
           sim.inject(&b);
@@ -509,6 +514,8 @@ impl Model for M {
     for t in &self.cfg.take_sizes {
       next.push(Ev::Take(*t));
     }
+    // (like the re-announcement: no effect on the model, one transition per state while the property holds)
+    next.push(Ev::Clean);
     let ledger_digest: Vec<String> = led
       .iter()
       .map(|l| {
